@@ -10,6 +10,10 @@
     estimator must be the same before and after.  The malformed kinds include multi-row batches whose
     per-row complement-coding errors cancel over the batch (complement half joined to the wrong rows,
     +delta / -delta in different rows): validation is row-wise.
+(d) oracle: the same rejection-atomicity for entries that are out of range by LESS than the resolution of the matrix's
+    dtype around the bounds (-5.5e-17 = 0.3 - (0.1 + 0.2), -5e-324, -2^-54, 1 + one ulp …) in float64 / float32 / float16
+    matrices of C / Fortran / strided layout; sources that round onto the bound when stored (1 + 2^-53 -> 1.0,
+    -5e-324 -> -0.0 in float32) are in range and are not demanded to be rejected.
 """
 from __future__ import annotations
 
@@ -27,7 +31,8 @@ RULE = ("cases = (a) one `prep` protocol line compared with the implementation (
         "remembered dim_); (b) (estimator tree, data set) for the round-trip oracle; (c) (estimator tree, "
         "training history, point of the history, entry point, malformed kind).  A case is non-trivial when the "
         "matrix has >= 2 rows with negative or non-unit-scale entries (a, b) or the estimator was trained before "
-        "the malformed call (c); distinct by hash of the whole tuple")
+        "the malformed call (c); (d) (estimator tree, training history, entry point, dtype, layout, near-bound value "
+        "as stored, matrix), non-trivial when trained; distinct by hash of the whole tuple")
 
 # ------------------------------------------------------------------ data
 
@@ -1074,6 +1079,180 @@ def extreme_scales(ctx):
 
 
 
+# ------------------------------------------------------------------ (d) out of range by less than the resolution
+
+NB_DTYPES = (np.float64, np.float32, np.float16)
+NB_LAYOUTS = ("C", "C", "F", "strided")
+
+
+def near_bound_sources(r, dt):
+    """(label, float64 source value) around the two bounds for a matrix of dtype `dt`: first list = negative values of
+    magnitude below the resolution of `dt` at 1/2 that `dt` represents (all out of range); second list = a mixed pool
+    (rounding residues of double arithmetic, 1 + fractions of an ulp, in-range neighbours of the bounds).  What counts
+    is the value STORED in the matrix: a source may round onto the bound itself when stored (1 + eps/2 -> 1.0, a
+    negative double below the subnormal range of float16 / float32 -> -0.0) and is then IN range."""
+    fi = np.finfo(dt)
+    eps, sub, tiny = float(fi.eps), float(fi.smallest_subnormal), float(fi.tiny)
+    kmin, kmax = int(round(-math.log2(eps))) + 2, int(round(-math.log2(sub)))
+    neg = [("-smallest-subnormal", -sub), ("-smallest-normal", -tiny), ("-eps/4", -eps / 4), ("-eps/8", -eps / 8),
+           ("-2^-k", -2.0 ** -r.randint(kmin, kmax)), ("-2^-k", -2.0 ** -r.randint(kmin, kmin + 12)),
+           ("-u*eps/4", -(0.5 + r.random() / 2) * eps / 4)]
+    mixed = neg + [("-eps/2", -eps / 2), ("-eps", -eps),
+                   ("double-residue:0.3-(0.1+0.2)", 0.3 - (0.1 + 0.2)), ("double:-5e-324", -5e-324),
+                   ("double:-2^-54", -2.0 ** -54), ("double:-2^-53", -2.0 ** -53), ("double:-1e-17", -1e-17),
+                   ("1+eps", 1.0 + eps), ("1+eps/2", 1.0 + eps / 2), ("1+3eps/4", 1.0 + 0.75 * eps),
+                   ("1+3eps/2", 1.0 + 1.5 * eps), ("double:1+2^-53", 1.0 + 2.0 ** -53), ("double:1+2^-52", 1.0 + 2.0 ** -52),
+                   ("double-residue:(0.1+0.2)/0.3", (0.1 + 0.2) / 0.3),
+                   ("-0.0", -0.0), ("+smallest-subnormal", sub), ("1-eps/2", 1.0 - eps / 2)]
+    return neg, mixed
+
+
+def nb_layout(X, how):
+    """the same matrix (same dtype, same values) in another memory layout"""
+    if how == "F":
+        return np.asfortranarray(X)
+    if how == "strided":
+        Z = np.full((2 * X.shape[0] + 1, 2 * X.shape[1] + 1), 7.0, dtype=X.dtype)   # 7 = out of range, never looked at
+        V = Z[1::2, 1::2]
+        V[...] = X
+        return V
+    return np.ascontiguousarray(X)
+
+
+def _valid_history(r, est, kind, cls, d, chans, ds, max_steps=2):
+    hist = []
+    for _ in range(r.randint(0, max_steps)):
+        n = r.randint(1, 8)
+        if kind == "CVIART" and n < 3:
+            n = 4
+        Xv = valid_data(r, kind, cls, n, d, chans, ds)
+        ops = ["fit"] if kind in ("CVIART", "iCVIFuzzyART") else ["fit", "partial_fit", "partial_fit"]
+        if hist:
+            ops.append("predict")
+        op = r.choice(ops)
+        try:
+            _call(est, op, Xv)
+        except Exception as e:   # training trouble on valid data belongs to C04, not here
+            raise _Skip(f"valid-{op}-raised:{kind}:{exc_enum(e)}")
+        hist.append((op, Xv))
+    return hist
+
+
+def near_bounds(ctx):
+    """entries out of range by less than the resolution of the matrix's dtype: -5.5e-17 = 0.3 - (0.1 + 0.2), -5e-324,
+    -2^-54 …, 1 + one ulp, in float64 / float32 / float16 matrices (C / Fortran / strided), at random points of random
+    training histories: fit / partial_fit / predict must raise and leave the estimator as it was.  A negative entry is
+    out of range however small; whether an entry is out of range is decided on the value the matrix STORES."""
+    cov = ctx.cov
+    for i in range(ctx.scale(6, 60)):
+        for kind in CLUSTERERS:
+            r = gen.rng_for(ctx.seed, "C18-nearbound-" + kind, i)
+            try:
+                _near_bound_one(ctx, r, kind, i)
+            except _Skip as e:
+                cov.hit("near-bound-skip:" + str(e))
+
+
+def _near_bound_one(ctx, r, kind, i):
+    import copy
+    cov = ctx.cov
+    spec, cls, d, chans, ds = _build(r, kind)
+    est = make(spec)
+    hist = _valid_history(r, est, kind, cls, d, chans, ds)
+    trained = bool(hist)
+    if kind == "FusionART":
+        k = r.randrange(len(chans))
+        mcls = chans[k]
+        idx = est._channel_indices[k]
+        lo, hi = int(idx[0]), int(idx[1])
+        chan_tag = "first-channel" if k == 0 else "later-channel"
+    else:
+        mcls, lo, hi, chan_tag = cls, 0, specs.width(cls, d), None
+    for dt in NB_DTYPES:
+        dname = np.dtype(dt).name
+        neg, mixed = near_bound_sources(r, dt)
+        for label, src in (r.choice(neg), r.choice(mixed)):
+            n = r.randint(1, 5)
+            Xv = valid_data(r, kind, cls, n, d, chans, ds)
+            with np.errstate(all="ignore"):
+                X = Xv.astype(dt)
+                stored = np.array(src, dtype=np.float64).astype(dt)
+            if not np.array_equal(X.astype(np.float64), Xv):
+                raise _Skip(f"valid-data-not-exact-in:{dname}")
+            v = float(stored)                      # widening: exact
+            a, b = r.randrange(n), r.randrange(lo, hi)
+            low_side = v <= 0.5
+            X[a, b] = stored
+            Xc = X.copy()
+            Xc[a, b] = 0.0 if low_side else 1.0    # control: the bound itself where the near-bound value sits
+            if mcls == "FuzzyART":
+                # the complement partner takes 1 - bound: the row stays complement coded to within |v - bound|
+                w2 = (hi - lo) // 2
+                p = b + w2 if b < lo + w2 else b - w2
+                X[a, p] = Xc[a, p] = 1.0 if low_side else 0.0
+            how = r.choice(NB_LAYOUTS)
+            out_of_range = v < 0.0 or v > 1.0      # -0.0 == 0 is in range
+            side = "lt0" if low_side else "gt1"
+            try:
+                with quiet(), np.errstate(all="ignore"):
+                    copy.deepcopy(est).validate_data(nb_layout(Xc, how))
+                control = True
+            except Exception:
+                control = False
+            if not out_of_range:
+                # the source rounded onto the bound / is an in-range neighbour of it: NOT an invalid matrix
+                if mcls != "ART1":
+                    try:
+                        with quiet(), np.errstate(all="ignore"):
+                            copy.deepcopy(est).validate_data(nb_layout(X, how))
+                        acc = "accepted"
+                    except Exception:
+                        acc = "rejected"
+                    cov.hit(f"near-bound:in-range-when-stored:{dname}:{acc}-by-validate_data")
+                    if label.startswith("double") or label in ("1+eps/2",):
+                        cov.hit(f"near-bound:source-rounds-onto-the-bound:{dname}")
+                continue
+            cov.hit(f"near-bound:{side}:{dname}:{how}:{'trained' if trained else 'fresh'}")
+            if control:
+                cov.hit(f"near-bound:{side}:{dname}:the-entry-is-the-only-defect")
+            mk_sig = f"{side}-by-less-than-resolution"
+            for entry in ENTRIES:
+                Xb = nb_layout(X, how)
+                before = snap(est)
+                raised = None
+                try:
+                    _call(est, entry, Xb)
+                except Exception as e:
+                    raised = exc_enum(e)
+                after = snap(est)
+                cov.case((kind, spec, [(o, x.tolist()) for o, x in hist], entry, "near-bound", dname, how, v.hex(),
+                          X.astype(np.float64).tolist()), trained)
+                cov.hit(f"reject:{mk_sig}:{entry}:{dname}")
+                rep = {"estimator": kind, "spec": spec, "history": [(o, x) for o, x in hist], "entry": entry,
+                       "malformed": mk_sig, "module_class": mcls, "dtype": dname, "layout": how, "row": a, "col": b,
+                       "source": label, "stored_value": v, "stored_value_hex": v.hex(),
+                       "X": X.astype(np.float64), "raised": raised, "control_accepted": control}
+                changed = diff_paths(before, after)
+                sig = classify(kind, entry, mk_sig, chan_tag, mcls, raised, changed)
+                where = f"X[{a},{b}] = {v!r} ({label}) in a {dname} matrix ({how} layout)"
+                if raised is None:
+                    ctx.issue("violation", sig,
+                              f"{kind}.{entry} accepted a matrix with the out-of-range entry {where} for its {mcls} module "
+                              f"({'trained' if trained else 'fresh'} estimator); state paths changed: {sorted(changed)}", rep)
+                elif changed:
+                    ctx.issue("violation", sig,
+                              f"{kind}.{entry} raised {raised} on {where} but the estimator changed at {sorted(changed)} "
+                              f"({'trained' if trained else 'fresh'} estimator)", rep)
+                else:
+                    cov.hit("rejected-atomically")
+                    cov.hit(f"near-bound:{side}:{dname}:rejected-atomically")
+                    continue
+                est = _rebuild(spec, hist)
+                if est is None:
+                    raise _Skip("rebuild-failed")
+    cov.traces += 1
+
+
 def prepare(ctx):
     """Translator tie (see gen_tie.py): the source of this slice is re-translated to Lean on every run
     (harness/artv/ptrans.py) and proved equal to the model the property theorems are about"""
@@ -1092,3 +1271,4 @@ def run(ctx):
     roundtrip(ctx)
     extreme_scales(ctx)
     rejection(ctx)
+    near_bounds(ctx)
